@@ -222,6 +222,21 @@ def _float_tag(v, in_location):
     return t
 
 
+def float_tag_collisions(kmax=200):
+    """the three location forms never denote the same float for |k| <= kmax (so the tag printed for a float of a
+    location is the one the model carries, whichever form the source used), and every form is recognised"""
+    bad = []
+    forms = {}
+    for k in range(-kmax, kmax + 1):
+        for tag, v in ((f'{k}*1.4142', k * 1.4142), (f'{k}+0.9', k + 0.9), (f'{k}-0.9', k - 0.9)):
+            if _float_tag(v, True) != tag:
+                bad.append((tag, _float_tag(v, True)))
+            if v in forms and forms[v] != tag:
+                bad.append((tag, forms[v]))
+            forms[v] = tag
+    return bad
+
+
 def _jstr(s_):
     return '"' + s_.replace('\\', '\\\\').replace('"', '\\"') + '"'
 
@@ -266,6 +281,9 @@ def code_data_streams(ctx, c):
     class x sizes x deformation x both pictures"""
     def err_post(op, out):
         return 'ERR' if out.startswith('ERR') else out
+    coll = float_tag_collisions()
+    if coll:   # would make the textual comparison ambiguous: report, never silently pass
+        ctx.notes.append(f'float tag collisions: {coll[:5]}')
     s_desc = Stream('code-data-descriptions-vs-model', post=err_post)
     s_mat = Stream('code-data-H-logicals-order-vs-model', post=err_post)
     menu = menu_requests(ctx)
